@@ -537,7 +537,12 @@ func (sc *Scenario) measFile(csv bool) string {
 	if csv {
 		b.WriteString("Id,Date,Nmin0-3,Nmin3-6,Nmin6-9,Nmin9-12,Nmin12-15,Nmin15-20,M,Water0-3,Water3-6,Water6-9,Water9-12,Water12-15,Water15-20\n")
 		if sc.MeasInit {
-			fmt.Fprintf(&b, "%s,%s,%d,%d,%d,%d,%d,%d,%s,%.3f,%.3f,%.3f,%.3f,%.3f,%.3f\n", sc.measIdent(), FmtDate(sc.MeasDate, sc.DateFormat),
+			// a quarter of the CSV files carry cells padded with blanks (a table converted from the fixed-width file keeps them)
+			id, pad := sc.measIdent(), ""
+			if rp := NewRng(mix(mix(sc.Seed, uint64(sc.Index)), 7474)); rp.Bool(0.25) {
+				pad = pickS(rp, []string{" ", "     ", "\t"})
+			}
+			fmt.Fprintf(&b, "%s,%s,%d,%d,%d,%d,%d,%d,%s,%.3f,%.3f,%.3f,%.3f,%.3f,%.3f\n", id+pad, FmtDate(sc.MeasDate, sc.DateFormat)+pad,
 				sc.MeasN[0], sc.MeasN[1], sc.MeasN[2], sc.MeasN[3], sc.MeasN[4], sc.MeasN[5], sc.MeasMode,
 				sc.MeasW[0], sc.MeasW[1], sc.MeasW[2], sc.MeasW[3], sc.MeasW[4], sc.MeasW[5])
 		}
